@@ -283,14 +283,15 @@ PROPS["C05"] = dict(
 
 PROPS["C15"] = dict(
     modules=["Hub.Props.C15"],
-    gens=["c15", "c15http"],
+    gens=["c15", "c15http", "c15txn"],
     rule="(1) generated entity collections from value trees (all JSON value shapes, nested entities and arrays to depth 5, default prefix, absolute http/https URIs, array refs, null-valued and "
          "repeated properties, shuffled member order, unknown members with nested values, varying white space) serialised by the harness and parsed by the real ParseStream; the specification is "
          "the denotation of the tree; (2) every wrongly typed member, malformed element and malformed context of a hand-kept table, alone and between well-formed elements; trailing data after "
          "the closing bracket; deep nesting; (3) byte-level mutations (truncate, drop, insert, replace, duplicate a chunk, retype a value) of well-formed documents and random strings over the "
          "JSON alphabet; the model is run on the token stream an independent encoding/json tokenizer produces for the same bytes; syntactically invalid JSON must be an error; (4) POST through "
          "the real echo handler, then GET entities and GET changes and parse what the hub serialises with the hub's own parser: what is stored is what the payload denotes (batches of ten "
-         "before a malformed element). A panic is an observation. non-trivial = at least one entity and nesting",
+         "before a malformed element). (5) transaction payloads (an @context member followed by one member per dataset holding its entity array, 1-3 datasets, 0-3 entities each, now and then a malformed element) through the real ParseTransaction, "
+         "compared dataset by dataset with the real ParseStream on the same elements (refused iff one collection is refused). A panic is an observation. non-trivial = at least one entity and nesting",
     trusted=["encoding/json's tokenizer (json.Decoder.Token/Decode): the model starts at the token stream", "the namespace manager (C13) for prefix assignment: ids are compared as expanded URIs",
              "numbers are compared by their shortest float64 text; `recorded` is checked for its type only"],
     assumptions=["the parser instance is used for one payload (its property-name cache is then semantically transparent)"],
